@@ -579,11 +579,11 @@ pub fn process_events(
     input: InputList,
     context: &mut TransformerContext,
 ) -> Result<(OutputList, Option<BoundingBox>)> {
-    if is_real_svg(&input) {
-        if context.get_top_element().is_none() {
-            // if this is the outermost SVG element, we mark the entire input as a 'real' SVG document
-            context.real_svg = true;
-        }
+    // Only the outermost element can make this a 'real' SVG document; a namespaced
+    // <svg> nested in an svgdx document is copied through by `Container`, and its
+    // siblings are still processed.
+    if context.at_top_level() && is_real_svg(&input) {
+        context.real_svg = true;
         return Ok((input.into(), None));
     }
     let mut output = OutputList::new();
